@@ -6,6 +6,7 @@ import (
 	"strings"
 	"sync"
 
+	"golang.org/x/text/unicode/norm"
 	"pgregory.net/rapid"
 
 	"verifharness/h"
@@ -57,7 +58,22 @@ func Mutate(t *rapid.T, words []string, l, other *ref.List) ([]string, string) {
 		return words, "none"
 	}
 	p := rapid.IntRange(0, len(words)-1).Draw(t, "p")
-	switch h.Pick(t, "mk", 5, 2, 4, 3, 1, 1, 1, 1, 1) {
+	switch h.Pick(t, "mk", 5, 2, 4, 3, 1, 1, 1, 1, 1, 1) {
+	case 9: // a Unicode-equivalent spelling that is not the list's own (composed kana, full-width letters)
+		alt := norm.NFC.String(words[p])
+		if alt == words[p] {
+			var b strings.Builder
+			for _, r := range words[p] {
+				if r >= 0x21 && r <= 0x7e {
+					b.WriteRune(r - 0x21 + 0xff01)
+				} else {
+					b.WriteRune(r)
+				}
+			}
+			alt = b.String()
+		}
+		words[p] = alt
+		return words, "denormalized-word"
 	case 0: // another word of the list (checksum decides)
 		words[p] = l.Words[rapid.IntRange(0, 2047).Draw(t, "w")]
 		return words, "other-word"
